@@ -260,8 +260,8 @@ class Session:
         ops0 = {o["id"] for o in d0["ops"]}
         rc, out, err = env.jj(root, *argv)
         self.commands += 1
-        if rc not in (0, 1, 2):
-            # a crash of jj is data
+        if rc == 101 or rc < 0:
+            # a crash of jj (Rust panic / signal) is data; exit code 255 ("Internal error: ...") is an ordinary failure
             self.records.append({"op": "panic", "case": self.case, "ws": wsname, "kind": kind, "argv": argv,
                                  "rc": rc, "err": err[-400:]})
         if kind == "workspace-add" and rc == 0:
